@@ -33,7 +33,7 @@ class LogicalMeta(type):
 
     def __and__(cls: T, other: T) -> Union[T, OTHER]:
         if isinstance(other, LogicalType):
-            return other.__rand__(cls)  # noqa
+            return type(other).__rand__(other, cls)  # noqa (not the slot of the rule's builtin origin, like int.__rand__)
         return cls.__logical_type__.combine("&", cls, other)
 
     def __rand__(cls: T, other: OTHER) -> Union[OTHER, T]:
@@ -43,7 +43,7 @@ class LogicalMeta(type):
         if getattr(other, "__origin__", None) == Union:
             return cls.__logical_type__.combine("|", cls, *other.__args__)
         if isinstance(other, LogicalType):
-            return other.__ror__(cls)  # noqa
+            return type(other).__ror__(other, cls)  # noqa (not the slot of the rule's builtin origin, like int.__ror__)
         return cls.__logical_type__.combine("|", cls, other)
 
     def __ror__(cls: T, other: OTHER) -> Union[OTHER, T]:
@@ -53,7 +53,7 @@ class LogicalMeta(type):
 
     def __xor__(cls: T, other: OTHER) -> Union[T, OTHER]:
         if isinstance(other, LogicalType):
-            return other.__rxor__(cls)  # noqa
+            return type(other).__rxor__(other, cls)  # noqa (not the slot of the rule's builtin origin, like int.__rxor__)
         return cls.__logical_type__.combine("^", cls, other)
 
     def __rxor__(cls: T, other: OTHER) -> Union[OTHER, T]:
